@@ -1243,8 +1243,14 @@ func TypeNew(metatype *Type, args Tuple, kwargs StringDict) (Object, error) {
 		return nil, err
 	}
 	name := nameObj.(String)
-	bases := basesObj.(Tuple)
-	orig_dict := orig_dictObj.(StringDict)
+	bases, ok := basesObj.(Tuple)
+	if !ok {
+		return nil, ExceptionNewf(TypeError, "type() argument 2 must be tuple, not %s", basesObj.Type().Name)
+	}
+	orig_dict, ok := orig_dictObj.(StringDict)
+	if !ok {
+		return nil, ExceptionNewf(TypeError, "type() argument 3 must be dict, not %s", orig_dictObj.Type().Name)
+	}
 
 	// Determine the proper metatype to deal with this:
 	winner, err = metatype.CalculateMetaclass(bases)
